@@ -2,8 +2,8 @@
  * ovni_mark_label (src/rt/ovni.c), with get_thread_metadata.
  *
  * Real code: ovni_mark_type, ovni_mark_label, get_thread_metadata; the keys are built by the
- * real snprintf calls on a printf GHOST (c17_snprintf below): literal text, %s and %c exact;
- * a decimal conversion does not divide (twenty 64-bit divisions per conversion made the query
+ * real snprintf calls on a printf GHOST (c17_snprintf below): literal text exact; a decimal
+ * conversion does not divide (twenty 64-bit divisions per conversion made the query
  * 5.6 M clauses / no verdict for 64-bit values) but takes the digits from the inputs under the
  * assumption "canonical decimal string whose value is the argument" (guess and verify; the
  * ghost first ASSERTS that the argument is the type / value of the call, so the assumption
@@ -41,10 +41,7 @@
 #include "parson.h"
 
 #ifndef MAXVL
-#define MAXVL 19
-#endif
-#ifndef VALUE_BITS
-#define VALUE_BITS 63        /* label values range over [INT64_MIN, 2^VALUE_BITS) */
+#define MAXVL 19             /* decimal digits of INT64_MAX: every positive int64 value is covered */
 #endif
 
 struct inputs {
@@ -228,14 +225,8 @@ harness(void)
 {
 	V_LOAD_INPUTS();
 	V_ASSUME(IN.op <= 1);
-#ifdef ONLY_OP
-	V_ASSUME(IN.op == ONLY_OP);
-#endif
 	V_ASSUME(IN.str_null <= 1 && IN.ready <= 1 && IN.finished <= 1);
 	V_ASSUME(IN.pre_type_def <= 1 && IN.pre_label_def <= 1);
-#if VALUE_BITS < 63
-	V_ASSUME(IN.value < ((int64_t) 1 << VALUE_BITS));
-#endif
 	/* Inv of the metadata: labels live inside their type; the API only ever stores types in
 	 * [0,100) and label values > 0 */
 	V_ASSUME(!IN.pre_label_def || IN.pre_type_def);
